@@ -8,6 +8,7 @@ import (
 	"encoding/json"
 	"fmt"
 	"math"
+	"math/big"
 	"sort"
 	"strconv"
 	"strings"
@@ -29,6 +30,7 @@ const (
 	KSeq
 	KMap
 	KOther // opaque scalar with a string rendering (e.g. a timestamp)
+	KUint  // an integer above the int64 range (U)
 )
 
 // Node is a generic ordered document tree.
@@ -36,6 +38,7 @@ type Node struct {
 	Kind Kind
 	B    bool
 	I    int64
+	U    uint64
 	F    float64
 	S    string
 	Seq  []*Node
@@ -56,6 +59,14 @@ func Null() *Node           { return &Node{Kind: KNull} }
 func Bool(b bool) *Node     { return &Node{Kind: KBool, B: b} }
 func Int(i int64) *Node     { return &Node{Kind: KInt, I: i} }
 func Float(f float64) *Node { return &Node{Kind: KFloat, F: f} }
+
+// Uint is an integer above the int64 range (values that fit int64 become KInt).
+func Uint(u uint64) *Node {
+	if u <= math.MaxInt64 {
+		return Int(int64(u))
+	}
+	return &Node{Kind: KUint, U: u}
+}
 func Str(s string) *Node    { return &Node{Kind: KStr, S: s} }
 func Seq(xs ...*Node) *Node { return &Node{Kind: KSeq, Seq: xs} }
 func Map() *Node            { return &Node{Kind: KMap} }
@@ -173,6 +184,8 @@ func (n *Node) writeJSON(b *bytes.Buffer, order KeyOrder) {
 		}
 	case KInt:
 		b.WriteString(strconv.FormatInt(n.I, 10))
+	case KUint:
+		b.WriteString(strconv.FormatUint(n.U, 10))
 	case KFloat:
 		b.WriteString(formatFloat(n.F))
 	case KStr, KOther:
@@ -240,6 +253,9 @@ func fromJSONTok(dec *json.Decoder, tok json.Token) (*Node, error) {
 		if !strings.ContainsAny(s, ".eE") {
 			if i, err := strconv.ParseInt(s, 10, 64); err == nil {
 				return Int(i), nil
+			}
+			if u, err := strconv.ParseUint(s, 10, 64); err == nil {
+				return Uint(u), nil
 			}
 		}
 		f, err := strconv.ParseFloat(s, 64)
@@ -349,7 +365,14 @@ func (n *Node) toYAMLPlain(st *YAMLStyle, depth int, inFlow bool) *yaml.Node {
 		return &yaml.Node{Kind: yaml.ScalarNode, Tag: "!!bool", Value: strconv.FormatBool(n.B)}
 	case KInt:
 		return &yaml.Node{Kind: yaml.ScalarNode, Tag: "!!int", Value: strconv.FormatInt(n.I, 10)}
+	case KUint:
+		return &yaml.Node{Kind: yaml.ScalarNode, Tag: "!!int", Value: strconv.FormatUint(n.U, 10)}
 	case KFloat:
+		// a whole number beyond the 64-bit integers is a float to YAML however it is written: sometimes
+		// the Author writes all its digits
+		if st != nil && st.T != nil && n.F == math.Trunc(n.F) && math.Abs(n.F) >= 18446744073709551616.0 && !math.IsInf(n.F, 0) && st.T.Draw(2, "yaml:bigfloat-digits") == 1 {
+			return &yaml.Node{Kind: yaml.ScalarNode, Tag: "!!float", Value: new(big.Float).SetFloat64(n.F).Text('f', 0)}
+		}
 		return &yaml.Node{Kind: yaml.ScalarNode, Tag: "!!float", Value: formatFloat(n.F)}
 	case KOther:
 		// rendered plain and untagged so YAML resolves it (e.g. a timestamp)
@@ -482,7 +505,9 @@ func fromYAMLNode(y *yaml.Node, depth int) (*Node, error) {
 		case int64:
 			return Int(x), nil
 		case uint64:
-			return Float(float64(x)), nil
+			return Uint(x), nil
+		case uint:
+			return Uint(uint64(x)), nil
 		case float64:
 			return Float(x), nil
 		case string:
@@ -525,15 +550,21 @@ func fromYAMLNode(y *yaml.Node, depth int) (*Node, error) {
 // ---------------------------------------------------------------------------
 // Comparison
 
-// NumEq compares numbers by value.
-func numVal(n *Node) (float64, bool) {
+// numVal gives the exact value of a number (integers of any size and floats compare by value, 1 == 1.0,
+// but 9007199254740993 != 9007199254740992).
+func numVal(n *Node) (*big.Float, bool) {
 	switch n.Kind {
 	case KInt:
-		return float64(n.I), true
+		return new(big.Float).SetPrec(128).SetInt64(n.I), true
+	case KUint:
+		return new(big.Float).SetPrec(128).SetUint64(n.U), true
 	case KFloat:
-		return n.F, true
+		if math.IsNaN(n.F) {
+			return nil, true
+		}
+		return new(big.Float).SetPrec(128).SetFloat64(n.F), true
 	}
-	return 0, false
+	return nil, false
 }
 
 // Same reports strict structural equality, except that numbers compare by
@@ -557,10 +588,10 @@ func DiffClass(a, b *Node, path, cpath string) (string, string) {
 	}
 	if fa, ok := numVal(a); ok {
 		if fb, ok2 := numVal(b); ok2 {
-			if fa == fb || (math.IsNaN(fa) && math.IsNaN(fb)) {
+			if (fa == nil && fb == nil) || (fa != nil && fb != nil && fa.Cmp(fb) == 0) {
 				return "", ""
 			}
-			return fmt.Sprintf("%s: number %v != %v", path, fa, fb), cpath
+			return fmt.Sprintf("%s: number %s != %s", path, a.Short(), b.Short()), cpath
 		}
 	}
 	if a.Kind != b.Kind {
@@ -624,7 +655,7 @@ func DiffClass(a, b *Node, path, cpath string) (string, string) {
 }
 
 func kindName(k Kind) string {
-	return [...]string{"null", "bool", "int", "float", "string", "sequence", "mapping", "other"}[k]
+	return [...]string{"null", "bool", "int", "float", "string", "sequence", "mapping", "other", "uint"}[k]
 }
 
 // Short renders a node compactly for messages.
